@@ -436,8 +436,13 @@ func ruleStoreScoped(e *Engine, r *Reporter) {
 		case "SELECT", "UPDATE", "DELETE":
 			ok := false
 			detail := ""
+			var rootGuards []string
+			if st.Root != nil {
+				rootGuards = describeGuards(st.Root.Block())
+			}
 			for _, w := range st.Wheres {
-				if v, has := w.Vals["store"]; has && len(w.Guards) == 0 || has && !guardsMention(w.Guards, "store") {
+				// the predicate must be applied whenever the statement is built: no guard beyond the root's own
+				if v, has := w.Vals["store"]; has && len(diffStrings(w.Guards, rootGuards)) == 0 {
 					detail = v
 					if isStoreParamText(v, st.Top) {
 						ok = true
